@@ -460,7 +460,8 @@ pub fn drive(args: &Args) -> i32 {
     let boundary = [0usize, 1, 63, 64, 65, 127, 128, 511, 512, 513, 4031, 4032, 4033, 4095, 4096, 4097, 4607, 4608, 8191, 8192, 8193];
     let mut stats = json!({"v3": 0, "v4": 0, "difat_files": 0, "multi_fat_files": 0, "max_bytes": 0, "streams": 0});
     for run in 0..(n + big + huge) {
-        let v4 = rng.gen_bool(0.5);
+        // the > 6.9 MB layouts use 512-byte sectors: > 109 FAT sectors, i.e. a DIFAT sector is needed
+        let v4 = rng.gen_bool(0.5) && run < n + big;
         let ssz = if v4 { 4096 } else { 512 };
         let ns = rng.gen_range(1..=5usize);
         let mut names: Vec<String> = Vec::new();
